@@ -93,6 +93,11 @@ pub fn build(mut t: Tape, sweep: Option<(u8, u8)>) -> Built {
     let want_p = 1 + t.draw(CFG, 6) as usize;
     let rules = st.rules_datagrams(want_r, &mut t);
     let players = st.players_datagrams(want_p, &mut t);
+    // the reported count may also be lower than what is listed (a bot-only server reports 0): the client
+    // may then stop after the first players datagram, so only when the list is in one datagram
+    if sweep.is_none() && players.len() == 1 && t.draw(CFG, 3) == 0 {
+        st.num_players = *t.pick(CFG, &[0u32, 0, 1, st.players.len() as u32 / 2]);
+    }
     let with_rules = gather.mutators_and_rules != GatherToggle::Skip;
     let with_players = gather.players != GatherToggle::Skip;
     let expected = st.expected(with_rules, with_players);
@@ -147,7 +152,7 @@ impl Prop for C06 {
         vec![
             "string format and colour stripping follow node-gamedig's readUnrealString (reference-derived)".into(),
             "Latin-1 strings use printable ASCII, 0xa0-0xff, control codes 0x01-0x1a and ESC sequences; 0x7f-0x9f are not generated (Latin-1 and Windows-1252 differ there)".into(),
-            "num_players in the server info is at least the number of listed players".into(),
+            "num_players in the server info is at least the number of listed players whenever the list spans several datagrams (the client may stop once it has that many); with a one-datagram list it is drawn freely, 0 included".into(),
             "the greedy receive loops end on a simulated read timeout".into(),
             "the bare UCS-2 length byte 0x80 (empty, no NUL unit) is only sent where the next byte cannot be 0x01 (game type, first player name); elsewhere it is sent as 0x81 + NUL, because 0x80 followed by a 0x01 byte of the next field is inherently ambiguous with the stray-0x01 quirk".into(),
         ]
